@@ -4,6 +4,7 @@ import Np.Model.Maps
 import Np.Proofs.DetPoly
 import Np.Proofs.Reduce
 import Np.Proofs.ReduceFns
+import Np.Proofs.BilinearFns
 /-! C10 — reductions and linear algebra equal finite sums and products of elements: property theorems -/
 namespace Np.Props.C10
 open MvPolynomial
@@ -184,5 +185,47 @@ theorem prod_groups_table (k : Bool) : ∃ G, prodAxisGroups (a ++ n :: b) a.len
 example : diffNW [2, 3] 2 1 = some ([2, 1], [[(2, 1), (1, -2), (0, 1)], [(5, 1), (4, -2), (3, 1)]]) := by decide
 example : (sumAxesW [2, 3] [0, 1] true).map (·.1) = some [1, 1] := by decide
 end tables
+
+/-! ### numpy's index arithmetic for inner / outer / matmul inside the model (`Np/Model/BilinearFns.lean`), end to end
+through the executable `bilinearOp` -/
+section bilinear
+open Np.Shape Np.BilinearFns Np.ReduceFns
+variable {R : Type} [CommSemiring R] [BEq R] [LawfulBEq R]
+
+/-- **matmul of two matrices**: element `(i, j)` of the result is `Σ_t a[i, t] · b[t, j]` in exact polynomial
+arithmetic — for every `m, k, n`, any indeterminates and numbers of terms -/
+theorem matmul_is_sum_of_products (rc rn : Bool) (a b : Arr R) (ha : a.WF) (hb : b.WF) {m k n : Nat}
+    (hsa : a.shape = [m, k]) (hsb : b.shape = [k, n]) :
+    ∃ P r, matmul2P m k n = some ([m, n], P) ∧ bilinearOp rc rn a b [m, n] P = some r ∧ r.WF ∧ r.shape = [m, n] ∧
+      ∀ i j, i < m → j < n → ∀ p : Fin (size r.shape), p.val = ravel [m, n] [i, j] →
+        r.elem p = ((List.range k).map fun t =>
+          elemD a (ravel a.shape [i, t]) * elemD b (ravel b.shape [t, j])).sum :=
+  bilinearOp_matmul2P rc rn a b ha hb hsa hsb
+
+/-- **stacked matmul with broadcasting stacks** (numpy's rule for operands of 2 or more dimensions): element
+`s ++ [i, j]` is `Σ_t a[bcast s ++ [i, t]] · b[bcast s ++ [t, j]]` -/
+theorem stacked_matmul_is_sum_of_products (rc rn : Bool) (a b : Arr R) (ha : a.WF) (hb : b.WF)
+    {stA stB st : List Nat} {m k n : Nat}
+    (hsa : a.shape = stA ++ [m, k]) (hsb : b.shape = stB ++ [k, n]) (h : bshape stA stB = some st) :
+    ∃ P r, matmulP a.shape b.shape = some (st ++ [m, n], P) ∧ bilinearOp rc rn a b (st ++ [m, n]) P = some r ∧
+      r.WF ∧ r.shape = st ++ [m, n] ∧
+      ∀ s i j, InR s st → i < m → j < n → ∀ p : Fin (size r.shape), p.val = ravel (st ++ [m, n]) (s ++ [i, j]) →
+        r.elem p = ((List.range k).map fun t =>
+          elemD a (ravel a.shape (bmulti stA s ++ [i, t])) * elemD b (ravel b.shape (bmulti stB s ++ [t, j]))).sum :=
+  bilinearOp_matmulP rc rn a b ha hb hsa hsb h
+
+/-- **outer**: element `(i, j)` is `a.flat[i] · b.flat[j]`; **inner of vectors**: `Σ_t a[t] · b[t]` -/
+theorem outer_is_products (rc rn : Bool) (a b : Arr R) (ha : a.WF) (hb : b.WF) :
+    ∃ p r, outerP a.shape b.shape = some ([size a.shape, size b.shape], [p]) ∧
+      bilinearOp rc rn a b [size a.shape, size b.shape] [p] = some r ∧ r.WF ∧
+      r.shape = [size a.shape, size b.shape] ∧
+      ∀ i j, i < size a.shape → j < size b.shape → ∀ q : Fin (size r.shape),
+        q.val = ravel [size a.shape, size b.shape] [i, j] → r.elem q = elemD a i * elemD b j :=
+  bilinearOp_outerP rc rn a b ha hb
+theorem inner_is_sum_of_products (rc rn : Bool) (a b : Arr R) (ha : a.WF) (hb : b.WF) (n : Nat) :
+    ∃ P r, innerVecP n = some ([], P) ∧ bilinearOp rc rn a b [] P = some r ∧ r.WF ∧ r.shape = [] ∧
+      ∀ q : Fin (size r.shape), r.elem q = ((List.range n).map fun t => elemD a t * elemD b t).sum :=
+  bilinearOp_innerVecP rc rn a b ha hb n
+end bilinear
 
 end Np.Props.C10
